@@ -110,7 +110,13 @@ func flowC04(c *Ctx) {
 					for _, it := range items {
 						got = append(got, it.t.String())
 					}
-					c.Run.Bad(r2, key+"/sequence", ipos(c, w.Instr), "CMAC input = [JoinReqType|JoinEUI|DevNonce under OptNeg] | MHDR | payload", fmt.Sprintf("%d items: %s", len(items), short(strings.Join(got, " | "))))
+					if len(items) == 1 {
+						// not an append chain at all (a bytes.Buffer, a helper): the input is assembled some other way;
+						// what it is, byte for byte, is decided by the exact rules R1/R2
+						c.Run.Unknown(r2, key+"/sequence", ipos(c, w.Instr), "CMAC input built by append/if", short(strings.Join(got, " | ")))
+					} else {
+						c.Run.Bad(r2, key+"/sequence", ipos(c, w.Instr), "CMAC input = [JoinReqType|JoinEUI|DevNonce under OptNeg] | MHDR | payload", fmt.Sprintf("%d items: %s", len(items), short(strings.Join(got, " | "))))
+					}
 				} else {
 					for i := range want {
 						k := fmt.Sprintf("%s/sequence[%d]:%s", key, i, names[i])
